@@ -647,6 +647,25 @@ func RunC04(d *Driver) *Report {
 			}
 		}
 		uses := useVars(l.pre)
+		// the operand alone as the condition of if / else if / while: accepted exactly for type bool (any is not bool)
+		for ci, csrc := range []string{"if " + l.src + "\n    print 1\nend\n", "if false\n    print 0\nelse if " + l.src + "\n    print 1\nend\n",
+			"while " + l.src + "\n    break\nend\n", "if (" + l.src + ")\n    print 1\nend\n"} {
+			want := "reject"
+			if l.w == "b" {
+				want = "accept"
+			}
+			src := l.pre + csrc + uses
+			nprog++
+			r.Count(fmt.Sprintf("cond-plain:%d:%s", ci, src), true)
+			_, perr, pp := ParseSrc(src)
+			got := "accept"
+			if perr != "" || pp != "" {
+				got = "reject"
+			}
+			if got != want {
+				r.Violation(Case{Stream: "condition", Input: src, Real: got + " " + trunc(perr+pp, 300), Model: "type " + l.w, Spec: want + " (a condition must be of type bool)"})
+			}
+		}
 		probe("unary", l.pre, "-"+l.src, c.ask("un - "+l.w), uses)
 		probe("unary", l.pre, "!"+l.src, c.ask("un ! "+l.w), uses)
 		probe("slice", l.pre, l.src+"[0:1]", c.ask("slice "+l.w), uses)
